@@ -370,21 +370,29 @@ def matrix_pivot(m, sign=False):
     mp = deepcopy(m)
     n = len(mp)
     p = deepcopy(matrix_identity(n))  # permutation matrix (copy: matrix_identity results are memoised)
+    me = [[float(c) for c in r] for r in m]  # working copy, eliminated column by column to choose the pivots
     num_rowswap = 0
     for j in range(0, n):
         row = j
         a_max = 0.0
         for i in range(j, n):
-            a_abs = abs(mp[i][j])
+            a_abs = abs(me[i][j])
             if a_abs > a_max:
                 a_max = a_abs
                 row = i
         if j != row:
             num_rowswap += 1
+            me[j], me[row] = me[row], me[j]
             for q in range(0, n):
                 # Swap rows
                 p[j][q], p[row][q] = p[row][q], p[j][q]
                 mp[j][q], mp[row][q] = mp[row][q], mp[j][q]
+        # Eliminate the column, so that the next pivot is chosen as the LU decomposition will meet it
+        if a_max > 0.0:
+            for i in range(j + 1, n):
+                f = me[i][j] / me[j][j]
+                for q in range(j, n):
+                    me[i][q] -= f * me[j][q]
     if sign:
         return mp, p, math.pow(-1, num_rowswap)
     return mp, p
